@@ -63,6 +63,7 @@ func (s *_watchSession) done() <-chan struct{} {
 }
 
 func (s *_watchSession) stop() {
+	s.cancel()
 	s.lc.ShutdownAsync(nil)
 }
 
